@@ -164,7 +164,7 @@ def generate(prop, seed, tier):
         op = {"op": "fit", "n": n, "dseed": S.sub("d", k), "method": "mle", "weights": None, "source": "family", "container": S.wpick([("ndarray", 4), ("list", 1), ("series", 1)])}
         if lsq_ok and S.chance(0.5):
             op["method"] = S.pick(["lsq", "wlsq", "WLSQ"])
-            op["weights"] = S.pick(["linear", "quadratic", "cubic"])
+            op["weights"] = S.pick(["linear", "quadratic", "cubic", "array:linear", "list:quadratic"])
         elif S.chance(0.15):
             op["method"] = "MLE"
         if kind == "fit_other":
@@ -347,8 +347,14 @@ def execute(prop, scen):
             before = dict(dist.parameters)
             exc = None
             seams.pin_global(core.h64(scen["seed"], si))
+            w_arg = op["weights"]
+            if isinstance(w_arg, str) and ":" in w_arg:
+                # one weight per (sorted) observation, as an array or a list
+                xs_ = np.sort(np.asarray(data, dtype=float))
+                w_ = xs_ / xs_.sum() if w_arg.endswith("linear") else xs_**2 / np.sum(xs_**2)
+                w_arg = w_ if w_arg.startswith("array") else w_.tolist()
             try:
-                dist.fit(data, op["method"], op["weights"])
+                dist.fit(data, op["method"], w_arg)
             except Exception as e:  # noqa: BLE001
                 exc = e
             run.event("fit", [op["method"], op["source"], op["n"]], [dict(dist.parameters), type(exc).__name__ if exc else None], ["F2"] if op["source"] == "rejected" else [])
